@@ -187,8 +187,8 @@ func cachingHandler(router proxy.Router, logger *apexlog.Logger, conf *config.Co
 					for i := 0; i < len(ts); i++ {
 						select {
 						case waitedKeyInfo := <-*cr.WaitChan:
-							cr, _, err = cache.Get(ctx, rf.CacheId, rf.ForceRevalidate, waitedKeyInfo.CanUseStale, []caching.Key{waitedKeyInfo.Key}, *w, logger)
-							key = waitedKeyInfo.Key
+							// the key Get returns carries this request's own hold on the lock if it became the writer
+							cr, key, err = cache.Get(ctx, rf.CacheId, rf.ForceRevalidate, waitedKeyInfo.CanUseStale, []caching.Key{waitedKeyInfo.Key}, *w, logger)
 							if err != nil {
 								writeError(*w, err)
 								return
